@@ -14,5 +14,9 @@ rsync -a --delete --exclude target /verif/sim/ $W/sim/
 find $W/sim -name Cargo.toml -o -name 'Cargo.toml.in' | xargs sed -i "s#/repo/#$W/repo/#g"
 sed -i "s#/verif/target#$W/target#" $W/sim/.cargo/config.toml
 cd $W/sim && cargo build --offline -q -p "$ENGINE" 2>&1 | grep -E "^error" -A8 | head -30
+if [ "$ENGINE" = dagsim ]; then
+  RUSTFLAGS="--cfg aranya_verif --cfg aranya_verif_knobs" cargo build --offline -q -p dagsim --features low-mem --target-dir $W/target-knobs 2>&1 | grep -E "^error" -A8 | head -30
+  export DAGSIM_ALT_BIN=$W/target-knobs/debug/dagsim
+fi
 VERIF_MUTANT=1 $W/target/debug/$ENGINE "$@"
 echo "exit=$?"
